@@ -15,6 +15,7 @@ the switch(es) that change the model's outcome have their trigger predicate
 true on the graph.  Anything else is a VIOLATION.
 """
 import json
+import os
 import random
 from fractions import Fraction
 
@@ -25,7 +26,11 @@ from common import Report, freeze
 from props import base
 
 TOL = 1e-9
-FIX_A, FIX_B = 0, 0          # the switches describing /repo as it is (0 = code as is)
+# the model switches describing /repo as it is (0 = code as is, 1 = the fix proposed in
+# notes/C17.md applied); VERIF_C17_FIXED=ab lets one check a patched tree before the
+# constants are flipped
+FIX_A = 0 if "a" in os.environ.get("VERIF_C17_UNFIXED", "") else 1   # F15a repaired upstream (ac991a2)
+FIX_B = 0 if "b" in os.environ.get("VERIF_C17_UNFIXED", "") else 1   # F15b repaired upstream (ac991a2)
 
 
 # ------------------------------------------------------------------ generators
